@@ -58,8 +58,15 @@ def oracle(gcase, allg, filtg):
 
 def run(chk, failed):
     n = 400 if not chk.thorough else 12000
-    groups = [evalgen.gen_group(chk.rng, i) for i in range(n)]
-    cases = [evalgen.fmt_group(g) for g in groups]
+    groups, cases = [], []
+    for ln in C.read_corpus(chk.pid):          # minimised past failures first (single-topic group lines)
+        groups.append({"topics": _topics_of(ln), "corpus_line": ln})
+        cases.append(ln)
+        chk.count("corpus")
+    for i in range(n):
+        g = evalgen.gen_group(chk.rng, i)
+        groups.append(g)
+        cases.append(evalgen.fmt_group(g))
     chk.rule = ("groups of 0-4 topics x 0-6 partitions in the shapes storage can report (full / partial windows, "
                 "empty ring, no ring, owner-only), ties for the largest lag, minimum-complete and allowed-lag settings, "
                 "evaluated through the real request channel + cache + evaluateConsumerStatus with the storage reply "
@@ -74,7 +81,7 @@ def run(chk, failed):
         for p in allg["parts"]:
             if int(p[0]) not in order:
                 order.append(int(p[0]))
-        mcases.append(evalgen.fmt_group(g, order))
+        mcases.append(g["corpus_line"] if "corpus_line" in g else evalgen.fmt_group(g, order))
     model = chk.run_model("eval", mcases, name="group")
     chk.evaluations += len(cases)
     chk.traces_validated += len(cases)
@@ -95,7 +102,7 @@ def run(chk, failed):
         if pa[2].split()[1] != "1":
             errs.append("serving the filtered view changed what a later full request sees")
         mismatch = " || ".join(pa[:2]) != b
-        if i in (0, n // 2, n - 1):
+        if i in (0, len(cases) // 2, len(cases) - 1):
             chk.sample({"case": c, "impl": a, "model": b})
         if errs or mismatch:
             shown += 1
